@@ -1162,6 +1162,17 @@ func (cl *cluster) resize(ev, kind string, mask int, before controller.VerifView
 	after := cl.c.VerifView()
 	cl.observe("%s -> %v sizes=%v", ev, err != nil, now)
 	cl.nResizes++
+	if kind == "grow" && err == nil && cl.cfg.Real && cl.task != nil && !cl.task.done && cl.task.kind == "rebuild" {
+		// the volume grew while the replica whose rebuild task has started was not attached yet: what is observed
+		// from here on belongs to that history (see violate)
+		joined := false
+		for _, b := range before.Backends {
+			joined = joined || nodeOf(b.Address) == cl.task.node
+		}
+		if !joined {
+			cl.histTag = "replica-that-joined-after-a-grow-it-missed"
+		}
+	}
 	if !cl.wants("c16") {
 		return
 	}
